@@ -316,3 +316,10 @@ pub fn line_start_ordinals(text: &str) -> std::collections::BTreeSet<usize> {
     }
     set
 }
+
+/// signature of a known finding: `:` + line comment + `(` (a variant-record arm whose field list
+/// is pushed to the next line by a comment after the colon)
+pub fn colon_comment_paren(input: &str) -> bool {
+    let t = refscan::scan(input);
+    t.windows(3).any(|w| w[0].text(input) == ":" && w[1].kind == RK::LineComment && w[2].text(input) == "(")
+}
